@@ -222,6 +222,8 @@ func (w *World) verifyFunc(fn *ssa.Function) *FuncResult {
 		env := x.newSpecEnv(s2, s2.old, fn)
 		env.bindRootParams(s2.frames[0])
 		env.setResults(fn, results)
+		env.frame = s2.frames[0]
+		env.atBlock = s2.retBlock
 		for _, c := range fc.Ensures {
 			g, err := env.evalBool(c.Expr)
 			if err != nil {
